@@ -11,18 +11,19 @@ impl<'a> PrettyPrinter<'a> {
         &'a self,
         ctx: Context,
         parenthesized: Parenthesized<'a>,
+        embedded: bool,
     ) -> ArenaDoc<'a> {
         let ctx = ctx.with_mode(Mode::CodeCont);
 
         if let Pattern::Parenthesized(paren) = parenthesized.pattern() {
             if !has_comment_children(parenthesized.to_untyped()) {
                 // Remove a layer of paren if no comment inside.
-                return self.convert_parenthesized(ctx, paren);
+                return self.convert_parenthesized(ctx, paren, embedded);
             }
         }
 
         // Treat is as a list with a single item.
-        self.convert_parenthesized_impl(ctx, parenthesized)
+        self.convert_parenthesized_impl(ctx, parenthesized, embedded)
     }
 
     /// Convert an expression with optional parentheses.
